@@ -56,7 +56,7 @@ func c03Walk(st *Store, root cid.Cid, path, which string, matchPath bool) (match
 	if err != nil {
 		return nil, nil, err
 	}
-	prog := traversal.Progress{Cfg: &traversal.Config{LinkSystem: *ls, LinkTargetNodePrototypeChooser: protoChooser}}
+	prog := traversal.Progress{Cfg: &traversal.Config{Ctx: sessionCtx, LinkSystem: *ls, LinkTargetNodePrototypeChooser: protoChooser}}
 	err = prog.WalkMatching(pn, sel, func(p traversal.Progress, n datamodel.Node) error {
 		if which == "entity" {
 			if err := unixfsnode.BytesConsumingMatcher(p, n); err != nil {
@@ -154,6 +154,9 @@ func TestC03_P_PathSelector(t *testing.T) {
 		if err := root.build(st); err != nil {
 			t.Fatalf("build tree: %v", err)
 		}
+		// half of the stores pick what they serve from the request context (tenant, session, credentials): every load of
+		// the walk, also those made later by a matched node, has to carry the context the traversal was configured with
+		st.RequireSession = rapid.Bool().Draw(t, "sessionStore")
 		segs, nodes := genWalk(t, root)
 		target := nodes[len(nodes)-1]
 		if rapid.IntRange(0, 2).Draw(t, "noiseBefore") == 0 {
